@@ -157,6 +157,19 @@ func propC08(c *Ctx) {
 		nRet := 0
 		for _, r := range returnsOf(nhGet) {
 			vals := returnValues(r)
+			if len(vals) == 2 {
+				// the pair handed out as one value: its hash member
+				if _, iH, ok := pairFields(vals[0].Type()); ok {
+					if hv, ok := fieldValue(cv(vals[0]), iH, false, 0); ok {
+						if k, isK := unfold(hv).v.(*ssa.Const); isK && k.Value == nil {
+							continue
+						}
+						vals = []ssa.Value{nil, unfold(hv).v, vals[1]}
+					} else if k, isK := vals[1].(*ssa.Const); isK && k.Value != nil && k.Value.String() == "false" {
+						continue // the miss arms hand out the zero pair
+					}
+				}
+			}
 			if len(vals) != 3 {
 				continue
 			}
@@ -182,16 +195,45 @@ func propC08(c *Ctx) {
 				pN = p
 			}
 		}
+		// the pair as one parameter (update(hd head)): its two members
+		var pPair *ssa.Parameter
+		pairNum, pairHash := -1, -1
+		if len(update.Params) == 2 {
+			if iN, iH, ok := pairFields(update.Params[1].Type()); ok {
+				pPair, pairNum, pairHash = update.Params[1], iN, iH
+			}
+		}
+		memberOf := func(v ssa.Value, idx int) bool {
+			if pPair == nil {
+				return false
+			}
+			v = stripNum(stripConv(v))
+			switch x := v.(type) {
+			case *ssa.Field:
+				return x.Field == idx && paramRefOf(x.X, update) == 1
+			case *ssa.UnOp:
+				if fa, ok := x.X.(*ssa.FieldAddr); ok && x.Op == token.MUL && fa.Field == idx {
+					if al, ok := fa.X.(*ssa.Alloc); ok {
+						if cvv := cellValue(al); cvv != nil {
+							return cvv == ssa.Value(pPair)
+						}
+						// the spilled parameter
+						return rootParam(cval{v: al}) == pPair
+					}
+				}
+			}
+			return false
+		}
 		okN, okH := false, false
 		allInstrs(update, func(in ssa.Instruction) {
 			switch x := in.(type) {
 			case *ssa.Store:
-				if f, _ := fieldOf(x.Addr); f == fNum && x.Val == ssa.Value(pN) {
+				if f, _ := fieldOf(x.Addr); f == fNum && (x.Val == ssa.Value(pN) || memberOf(x.Val, pairNum)) {
 					okN = true
 				}
 			case *ssa.Call:
 				if cal := staticCallee(x); cal != nil && cal.Name() == "Write" {
-					if f, _ := fieldOf(x.Call.Args[0]); f == fHash && stripConv(x.Call.Args[1]) == ssa.Value(pH) {
+					if f, _ := fieldOf(x.Call.Args[0]); f == fHash && (stripConv(x.Call.Args[1]) == ssa.Value(pH) || memberOf(x.Call.Args[1], pairHash)) {
 						okH = true
 					}
 				}
@@ -204,6 +246,18 @@ func propC08(c *Ctx) {
 	for _, fn := range w.RepoFuncs() {
 		for _, u := range callsToFn(fn, update) {
 			nUp++
+			if len(u.Call.Args) == 2 {
+				// the pair as one value: a literal or the result of the function that reads the head; its two
+				// members are the number and the hash of one decoded value
+				good := false
+				if iN, iH, ok := pairFields(u.Call.Args[1].Type()); ok {
+					nv, ok1 := fieldValue(cv(u.Call.Args[1]), iN, false, 0)
+					hv, ok2 := fieldValue(cv(u.Call.Args[1]), iH, false, 0)
+					good = ok1 && ok2 && samePairSource(nv, hv)
+				}
+				c.Check("R8.2", fmt.Sprintf("%s/update#%d-pair", fnName(fn), callOrdinal(u)), u.Pos(), good, "update receives the number and the hash of one decoded header value")
+				continue
+			}
 			r0, ch0 := fieldChain(u.Call.Args[1])
 			r1, ch1 := fieldChain(u.Call.Args[2])
 			same := r0 != nil && r1 != nil && (r0 == r1 || sameVar(r0, r1)) && len(ch0) > 0 && len(ch1) > 0
@@ -239,6 +293,14 @@ func propC08(c *Ctx) {
 			r0, ch0 := fieldChain(vals[0])
 			r1, ch1 := fieldChain(vals[1])
 			ok := r0 != nil && (r0 == r1 || sameVar(r0, r1)) && len(ch0) > 0 && len(ch1) > 0 && ch0[len(ch0)-1].Name() == "Number" && ch1[len(ch1)-1].Name() == "Hash"
+			if !ok && r0 != nil && r0 == r1 {
+				// the two members of one pair value: from the cache, or built from one response
+				if call, _ := resultOf(stripConv(r0)); call != nil && staticCallee(call) == nhGet {
+					c.Check("R8.2", fmt.Sprintf("Latest/return#%d", n), instrPos(r), true, "cached head: number and hash of the pair one NumHash.get call handed out")
+					continue
+				}
+				ok = samePairSource(cv(vals[0]), cv(vals[1]))
+			}
 			c.Check("R8.2", fmt.Sprintf("Latest/return#%d", n), instrPos(r), ok, "uncached head: number and hash of the same response")
 		}
 	}
@@ -251,7 +313,7 @@ func propC08(c *Ctx) {
 		// NumHash.get: cached return (ok == true) is on the false edge of nreads >= maxreads and after nreads++
 		isReads := func(v ssa.Value) bool { return isFieldArg(v, fNHReads) }
 		isMax := func(v ssa.Value) bool { return isFieldArg(v, fNHMax) }
-		_, under := cmpEdgesV(nhGet, token.GEQ, isReads, isMax)
+		_, under := cmpEdgesVF(nhGet, token.GEQ, isReads, isMax, fNHReads, fNHMax)
 		var inc ssa.Instruction
 		if incs, _ := fieldOps(nhGet, fNHReads); len(incs) > 0 {
 			inc = incs[len(incs)-1]
@@ -259,7 +321,7 @@ func propC08(c *Ctx) {
 		n := 0
 		for _, r := range returnsOf(nhGet) {
 			vals := returnValues(r)
-			if cst, ok := vals[2].(*ssa.Const); ok && cst.Value != nil && cst.Value.String() == "true" {
+			if cst, ok := vals[len(vals)-1].(*ssa.Const); ok && cst.Value != nil && cst.Value.String() == "true" {
 				n++
 				ok := len(under) > 0 && guardedByEdges(nhGet, r, under) && inc != nil && dominatesInstr(inc, r)
 				c.Check("R8.3", fmt.Sprintf("NumHash.get/cached-return#%d", n), instrPos(r), ok, "a cached head is served only while nreads < maxreads, and the read is counted")
@@ -269,7 +331,7 @@ func propC08(c *Ctx) {
 			c.Violation("R8.3", "NumHash.get/cached-return", nhGet.Pos(), "no cached return found")
 		}
 		// expiry arm resets the pair
-		over, _ := cmpEdgesV(nhGet, token.GEQ, isReads, isMax)
+		over, _ := cmpEdgesVF(nhGet, token.GEQ, isReads, isMax, fNHReads, fNHMax)
 		okReset := len(over) > 0
 		for _, e := range over {
 			resetNum := false
@@ -383,7 +445,7 @@ func propC08(c *Ctx) {
 			}
 		}
 		c.Check("R8.3", "cache.get/prune-before-lookup", get.Pos(), len(pr) == 1 && lookup != nil && reg.Dominates(pr[0], lookup), "segments whose budget is used up are evicted before the look-up")
-		over, _ := cmpEdgesV(prune, token.GEQ, func(v ssa.Value) bool { return isFieldArg(v, fSegReads) }, func(v ssa.Value) bool { return isFieldArg(v, fCMax) })
+		over, _ := cmpEdgesVF(prune, token.GEQ, func(v ssa.Value) bool { return isFieldArg(v, fSegReads) }, func(v ssa.Value) bool { return isFieldArg(v, fCMax) }, fSegReads, fCMax)
 		okDel := len(over) > 0
 		for _, e := range over {
 			del := false
